@@ -255,9 +255,12 @@ Definition call_ok (p : pipeline) (rho : str -> str) (spF : list fstruct) (c : r
                                                            && negb (ahas (pdefaults p) x)) (pnames f)
                                      else []) p in
                 if negb (subset_str required (akeys (c_kw0 c))) then true   (* the fused function lacks an input *)
-                else if negb (forallb (fun k => if mem_str k (st_outputs spF)
-                                                then existsb (fun x => mem_str k (s_outs x) && (length (s_prims x) =? 1)) spF
-                                                else mem_str k (flat_map s_params spF)) (akeys flat1))
+                else if negb (forallb (fun k0 =>
+                                         let k := rho k0 in
+                                         if is_output p k0
+                                         then existsb (fun x => mem_str k (s_outs x) && (length (s_prims x) =? 1)) spF
+                                         else existsb (fun x => mem_str k (s_params x) && negb (ahas (s_bound x) k)) spF)
+                                      (akeys (c_kw0 c)))
                 then true          (* a supplied name is hidden in, or recomputed by, a fused function *)
                 else
                   sx_eqb r1 r0
